@@ -314,6 +314,7 @@ impl<P: Payload> World<P> {
                         }
                     };
                     let mut mixed = (false, false);
+                    let mut seen: Vec<NodeId> = Vec::new();
                     for (k, (back, item)) in got.iter().enumerate() {
                         let w = if *back { want.pop_back() } else { want.pop_front() };
                         if *back {
@@ -321,10 +322,18 @@ impl<P: Payload> World<P> {
                         } else {
                             mixed.0 = true
                         }
+                        // a node handed out twice by one iterator also breaks "each node at most once" (C02)
+                        let twice = item.map_or(false, |i| seen.contains(&i));
+                        if let Some(i) = item {
+                            if seen.len() < 4096 {
+                                seen.push(*i);
+                            }
+                        }
                         if *item != w {
                             let fs = if f.len() > 12 { format!("{:?} … ({} elements)", &f[..6], f.len()) } else { format!("{:?}", f) };
+                            let props: &[&'static str] = if twice { &["C10", "C02"] } else { &["C10"] };
                             d.failures.push(Failure::new(
-                                &["C10"],
+                                props,
                                 format!("{which}/{}/{}", if parentless { "parentless" } else { "with-parent" }, if *back { "next_back" } else { "next" }),
                                 format!("{:?}.{which}() forward sequence is {fs}; pulls {} (F=next, B=next_back): pull #{k} returned {:?}, expected {:?}", id, pulls(&got), item, w),
                             ));
@@ -334,6 +343,49 @@ impl<P: Payload> World<P> {
                     if (l >= 2 && mixed.0 && mixed.1) || parentless {
                         let key: String = plan.iter().take(70).map(|b| if *b { 'B' } else { 'F' }).collect();
                         d.nt.push(("C10", fnv(&format!("{which}|{l}|{key}|{}|{parentless}", plan.len()))));
+                    }
+                }
+                // internal iteration (count / last / for_each are built on fold) must respect both cursors:
+                // after k pulls from the back exactly the first len-k elements remain
+                for k in [1usize, l / 2] {
+                    if k == 0 || k > l {
+                        continue;
+                    }
+                    let rest = catch_unwind(AssertUnwindSafe(|| {
+                        macro_rules! rest {
+                            ($it:expr) => {{
+                                let mut it = $it;
+                                for _ in 0..k {
+                                    it.next_back();
+                                }
+                                // directly on the iterator (an adaptor such as take() would go through next())
+                                let c = it.clone().count();
+                                let last = it.clone().last();
+                                let mut each = Vec::new();
+                                it.for_each(|x| {
+                                    if each.len() <= l + 2 {
+                                        each.push(x)
+                                    }
+                                });
+                                (c, last, each)
+                            }};
+                        }
+                        match which {
+                            "children" => rest!(id.children(a)),
+                            "preceding_siblings" => rest!(id.preceding_siblings(a)),
+                            _ => rest!(id.following_siblings(a)),
+                        }
+                    }));
+                    d.evals += 1;
+                    let want_each: Vec<NodeId> = f[..l - k].to_vec();
+                    let ok = matches!(&rest, Ok((c, last, each)) if *c == l - k && *last == want_each.last().copied() && *each == want_each);
+                    if !ok {
+                        d.failures.push(Failure::new(
+                            &["C10"],
+                            format!("{which}/{}/fold-after-next_back", if parentless { "parentless" } else { "with-parent" }),
+                            format!("{:?}.{which}(): after {k} next_back() pulls count()/last()/for_each see {:?}, expected the first {} elements of the forward sequence", id, rest.ok().map(|(c, l2, e)| (c, l2, e.len())), l - k),
+                        ));
+                        return;
                     }
                 }
                 // rev() adaptor
@@ -351,6 +403,75 @@ impl<P: Payload> World<P> {
                         format!("{:?}.{which}().rev() yields {:?}, expected the forward sequence reversed {:?}", id, rv.ok(), want),
                     ));
                     return;
+                }
+            }
+        }
+    }
+
+    /// C10 without the model: the laws relate an iterator to its OWN forward sequence, so they can be judged
+    /// on any arena state (used when a case ends on a state the model cannot follow): from the back the
+    /// forward sequence reversed, any mix of pulls hands out each element exactly once, then None at both ends.
+    pub fn check_dei_selfref(&self, d: &mut DeepOut) {
+        let a = &self.arena;
+        let cap = self.m.n.len() + 1;
+        for s in 0..self.m.n.len() {
+            let id = self.m.n[s].id;
+            let live = catch_unwind(AssertUnwindSafe(|| a.get(id).map_or(false, |n| !n.is_removed()))).unwrap_or(false);
+            if !live {
+                continue;
+            }
+            for which in ["children", "preceding_siblings", "following_siblings"] {
+                let fwd = catch_unwind(AssertUnwindSafe(|| match which {
+                    "children" => id.children(a).take(cap + 1).collect::<Vec<_>>(),
+                    "preceding_siblings" => id.preceding_siblings(a).take(cap + 1).collect::<Vec<_>>(),
+                    _ => id.following_siblings(a).take(cap + 1).collect::<Vec<_>>(),
+                }));
+                let Ok(f) = fwd else { continue };
+                if f.len() > cap {
+                    continue; // does not end: C02's business
+                }
+                let l = f.len();
+                let mut plans: Vec<Vec<bool>> = Vec::new();
+                if l + 2 <= 8 {
+                    for pat in 0..(1u32 << (l + 2)) {
+                        plans.push((0..l + 2).map(|b| (pat >> b) & 1 == 1).collect());
+                    }
+                } else {
+                    for k in [0usize, 1, l / 2, l.saturating_sub(1), l, l + 1] {
+                        for front_first in [true, false] {
+                            plans.push((0..l + 2).map(|i| if i < k { !front_first } else { front_first }).collect());
+                        }
+                    }
+                }
+                for plan in plans {
+                    let mut want: VecDeque<NodeId> = f.iter().copied().collect();
+                    let res = catch_unwind(AssertUnwindSafe(|| {
+                        macro_rules! run {
+                            ($it:expr) => {{
+                                let mut it = $it;
+                                plan.iter().map(|&back| if back { it.next_back() } else { it.next() }).collect::<Vec<_>>()
+                            }};
+                        }
+                        match which {
+                            "children" => run!(id.children(a)),
+                            "preceding_siblings" => run!(id.preceding_siblings(a)),
+                            _ => run!(id.following_siblings(a)),
+                        }
+                    }));
+                    d.evals += 1;
+                    let Ok(got) = res else { continue };
+                    for (k, (item, &back)) in got.iter().zip(plan.iter()).enumerate() {
+                        let w = if back { want.pop_back() } else { want.pop_front() };
+                        if *item != w {
+                            let pulls: String = plan.iter().map(|b| if *b { 'B' } else { 'F' }).collect();
+                            d.failures.push(Failure::new(
+                                &["C10"],
+                                format!("{which}/self-consistency/{}", if back { "next_back" } else { "next" }),
+                                format!("{:?}.{which}() yields {:?} when only next() is used; with pulls {pulls} (F=next, B=next_back) pull #{k} returned {:?}, expected {:?}", id, f, item, w),
+                            ));
+                            return;
+                        }
+                    }
                 }
             }
         }
